@@ -229,4 +229,70 @@ example : let L := lapTriplets none [[0, 1, 4], [1, 2, 4], [2, 3, 4], [3, 0, 4]]
 example : (C17S.storeVertex [4] [0, 1, 2, 3]) = [(4, Src.free 0), (0, Src.bnd 0), (1, Src.bnd 1), (2, Src.bnd 2), (3, Src.bnd 3)] := by
   decide
 
+/-! ### non-vacuity of the strict theorems (round 6): the fan of four triangles, border on the four corners of the square -/
+
+private def fanF : List (List Nat) := [[0, 1, 4], [1, 2, 4], [2, 3, 4], [3, 0, 4]]
+private def fanU : Nat → Rat := fun x => if x = 4 then 1 / 2 else if x = 1 ∨ x = 2 then 1 else 0
+private def fanV : Nat → Rat := fun x => if x = 4 then 1 / 2 else if x = 2 ∨ x = 3 then 1 else 0
+
+private theorem fan_cols : ∀ t, t ∈ lapTriplets none fanF → t.2.1 ∈ [0, 1, 2, 3, 4] := by decide +kernel
+
+private theorem fan_closed : ∀ r, r ∈ [4] → ∀ j, Nbr (lapTriplets none fanF) r j → j ∈ [4] ∨ j ∈ [0, 1, 2, 3] := by
+  rintro r _ j ⟨t, ht, _, h2, _⟩
+  have := fan_cols t ht
+  rw [h2] at this
+  simp only [List.mem_cons, List.mem_nil_iff, or_false] at this ⊢
+  omega
+
+private theorem fan_reach (b : Nat) (hb : b < 4) : Reach (lapTriplets none fanF) [4] 4 b := by
+  refine Reach.step (by simp) ⟨(4, b, -1 / 2), ?_, rfl, rfl, Nat.ne_of_lt hb⟩ (Reach.refl b)
+  have h : ∀ b, b < 4 → ((4, b, (-1 / 2 : Rat)) : Triplet) ∈ lapTriplets none fanF := by decide +kernel
+  exact h b hb
+
+private theorem fan_harmonic (g : Nat → Rat) (h : 4 * g 4 = g 0 + g 1 + g 2 + g 3) :
+    ∀ r, r ∈ [4] → wSum (lapTriplets none fanF) r * g r = wDot (lapTriplets none fanF) g r := by
+  intro r hr
+  simp only [List.mem_cons, List.mem_nil_iff, or_false] at hr
+  subst hr
+  have hw : wSum (lapTriplets none fanF) 4 = 4 := by decide +kernel
+  have hd : wDot (lapTriplets none fanF) g 4 = g 0 + g 1 + g 2 + g 3 := by
+    simp [wDot, lapTriplets, lapTripletsFrom, faceTriplets, edgeTriplets, fanF]
+    ring
+  rw [hw, hd]; exact h
+
+/-- `interior_strictly_inside_unit_square` applies: all its hypotheses hold for the fan (centre strictly inside the square) -/
+example : 0 < fanU 4 ∧ fanU 4 < 1 ∧ 0 < fanV 4 ∧ fanV 4 < 1 :=
+  interior_strictly_inside_unit_square none (fun l h => by cases h) fanF [4] [0, 1, 2, 3] fanU fanV
+    (fan_harmonic fanU (by simp [fanU]; norm_num)) (fan_harmonic fanV (by simp [fanV]; norm_num)) fan_closed
+    (fun r hr => ⟨0, by simp, by simp only [List.mem_cons, List.mem_nil_iff, or_false] at hr; subst hr; exact fan_reach 0 (by omega)⟩)
+    (fun b hb => by
+      simp only [List.mem_cons, List.mem_nil_iff, or_false] at hb
+      rcases hb with rfl | rfl | rfl | rfl <;> (unfold OnSquare; simp [fanU, fanV]))
+    (by simp) (fan_reach 0 (by omega)) (fan_reach 2 (by omega)) (by simp [fanU, fanV]) (by simp [fanU, fanV])
+
+/-- `interior_strictly_inside_of_strictly_convex_border` applies to the same fan for the half-plane `x ≤ 1`: only the two
+border vertices 1 and 2 lie on the line `x = 1`, the centre reaches 0, 1, 2, hence `u₄ < 1` -/
+example : 1 * fanU 4 + 0 * fanV 4 < 1 :=
+  interior_strictly_inside_of_strictly_convex_border none (fun l h => by cases h) fanF [4] [0, 1, 2, 3] fanU fanV
+    (fan_harmonic fanU (by simp [fanU]; norm_num)) (fan_harmonic fanV (by simp [fanV]; norm_num)) fan_closed
+    (fun r hr => ⟨0, by simp, by simp only [List.mem_cons, List.mem_nil_iff, or_false] at hr; subst hr; exact fan_reach 0 (by omega)⟩)
+    1 0 1
+    (fun b hb => by
+      simp only [List.mem_cons, List.mem_nil_iff, or_false] at hb
+      rcases hb with rfl | rfl | rfl | rfl <;> simp [fanU, fanV])
+    (fun b1 b2 b3 m1 m2 m3 d12 d13 d23 => by
+      simp only [List.mem_cons, List.mem_nil_iff, or_false] at m1 m2 m3
+      rintro ⟨e1, e2, e3⟩
+      have k : ∀ b, b = 0 ∨ b = 1 ∨ b = 2 ∨ b = 3 → 1 * fanU b + 0 * fanV b = 1 → b = 1 ∨ b = 2 := by
+        intro b hb hbe
+        rcases hb with rfl | rfl | rfl | rfl
+        · simp [fanU] at hbe
+        · exact Or.inl rfl
+        · exact Or.inr rfl
+        · simp [fanU] at hbe
+      have := k b1 m1 e1; have := k b2 m2 e2; have := k b3 m3 e3
+      omega)
+    (r := 4) (b1 := 0) (b2 := 1) (b3 := 2) (by simp) (by simp) (by simp) (by simp) (by omega) (by omega) (by omega)
+    (fan_reach 0 (by omega)) (fan_reach 1 (by omega)) (fan_reach 2 (by omega))
+
 end Mouette.Props.C17Source
